@@ -930,7 +930,11 @@ func (e *Executor) execStream(f []string, line string) string {
 			e.Unrecovered("downloadBlock", pi, line)
 			return "panic"
 		}
-		if err != nil || blk == nil {
+		if err == nil && blk == nil {
+			e.preds("C33|downloadBlockFromPeerOld|nil-block-returned-as-success", line)
+			return "nil-block"
+		}
+		if err != nil {
 			return "err"
 		}
 		return fmt.Sprintf("block %d", blk.Height)
